@@ -52,7 +52,9 @@ func (w *World) parseObjectPath(p wPath) objPath {
 	for _, e := range p.Trace {
 		switch {
 		case e.Kind == "fieldstore":
-			if len(e.Args) == 1 && e.Args[0].K == TPure && e.Args[0].Name == "append" {
+			// an append stored into a field of the Encoder (the definition table); a slice
+			// built with append and stored into the definition being assembled is not one
+			if len(e.Args) == 1 && e.Args[0].K == TPure && e.Args[0].Name == "append" && strings.HasSuffix(e.Extra[:strings.LastIndex(e.Extra, ".")], ".Encoder") {
 				op.appends = append(op.appends, e)
 			}
 			continue
